@@ -158,6 +158,25 @@ func (w *W) store(p *Value, v Value) {
 	*p = v
 }
 
+// assign stores v into *p with Go's value semantics: aggregates are copied
+// element-wise into the existing storage so that pointers to fields/elements
+// taken earlier stay valid.
+func (w *W) assign(p *Value, v Value) {
+	if (v.k == KStruct || v.k == KArray) && p.k == v.k && p.p != nil && v.p != nil {
+		dst, src := p.p.([]Value), v.p.([]Value)
+		if len(dst) == len(src) {
+			if len(dst) > 0 && &dst[0] == &src[0] {
+				return
+			}
+			for i := range src {
+				w.assign(&dst[i], src[i])
+			}
+			return
+		}
+	}
+	w.store(p, copyVal(v))
+}
+
 func (w *W) undoAll() {
 	for i := len(w.journal) - 1; i >= 0; i-- {
 		r := w.journal[i]
